@@ -255,7 +255,7 @@ def run_eager(desc, M):
     # local independencies
     D = [[O.eval_bool(O.descendants_or_self(E, n)[a][b]) for b in range(n)] for a in range(n)]
     for v in range(n):
-        li = g.local_independencies(lab(v))
+        li = g.local_independencies([lab(v)])  # a bare tuple-named node would be read as a list of nodes
         pa = {u for u in range(v) if E[(u, v)]}
         nd = {u for u in range(n) if u != v and not D[v][u]} - pa
         asr = li.get_assertions()
